@@ -162,6 +162,7 @@ def run_stage_probes(ctx, wiring):
 
 
 # ================================================================================================ pipeflow level
+FRESH = "{| n_conv := false; n_tables := AllNaN; n_hyd_flag := false; n_idata := false; n_alpha := 1 |}"
 MODES = {"hydraulics": "MHydraulics", "heat": "MHeat", "sequential": "MSequential", "bidirectional": "MBidirectional"}
 
 
@@ -292,7 +293,7 @@ def classify(exc, frames, runs):
     return flags, True
 
 
-def call_step(net, st, pick):
+def call_step(net, st, pick, cache=None):
     """one pipeflow call of a scenario on the live net (mutation applied before, undone after)"""
     import numpy as np
     import pandapipes as pp
@@ -302,11 +303,9 @@ def call_step(net, st, pick):
     opts, undo = apply_mutation(net, st["mut"], pick)
     mode = "nonsense_mode" if st["mut"] == "bad_mode" else st["mode"]
     kw = dict(mode=mode, nonlinear_method=st["method"], use_numba=False, **opts)
-    if mode == "heat" and "_pit" in net and net.get("converged", False):
-        try:
-            kw["sol_vec"] = np.concatenate([net["_pit"]["node"][:, PINIT], net["_pit"]["branch"][:, MDOTINIT]])
-        except Exception:  # noqa: BLE001
-            pass
+    cache = cache if cache is not None else {}
+    if mode == "heat" and cache.get("sol_vec") is not None:
+        kw["sol_vec"] = cache["sol_vec"]
     exc, frames = None, []
     with D.Recorder() as rec:
         try:
@@ -318,6 +317,8 @@ def call_step(net, st, pick):
             u()
         except Exception:  # noqa: BLE001
             pass
+    if exc is None and mode != "heat":
+        cache["sol_vec"] = np.concatenate([net["_pit"]["node"][:, PINIT], net["_pit"]["branch"][:, MDOTINIT]])
     return mode, kw, exc, frames, rec.runs
 
 
@@ -337,16 +338,17 @@ def run_scenarios(ctx, n_scen):
         except Exception as e:  # noqa: BLE001
             ctx.note("generator produced an unbuildable net: %r" % (e,))
             continue
-        calls, log, in_model_all, prev_tabs = [], [], True, "AllNaN"
+        calls, log, prev_tabs, cache = [], [], "AllNaN", {}
+        start = FRESH
         for si, st in enumerate(sc["steps"]):
-            mode, kw, exc, frames, runs = call_step(net, st, sc["pick"] + si)
+            mode, kw, exc, frames, runs = call_step(net, st, sc["pick"] + si, cache)
             n_calls += 1
             cls = "ok" if exc is None else type(exc).__name__
             conv = bool(net.converged)
             allnan = drive.all_results_nan(net)
             flags, in_model = classify(exc, frames, runs)
-            if mode == "heat" and "sol_vec" not in kw and exc is not None and "use_given_hydraulic_results" in frames and \
-                    type(exc).__name__ not in ("UserWarning", "KeyError"):
+            if mode == "heat" and exc is not None and "use_given_hydraulic_results" in frames and \
+                    type(exc).__name__ not in ("UserWarning", "KeyError", "AttributeError"):
                 in_model = False
             ctx.count("pipeflow:%s:%s" % (mode if mode in MODES else "bad_mode", cls))
             ctx.count("mutation:" + st["mut"])
@@ -381,10 +383,23 @@ def run_scenarios(ctx, n_scen):
                                   "pipeflow raised %s (%s) and afterwards net.converged=%s and result tables %s"
                                   % (cls, where, conv, "are all NaN" if allnan else "hold numbers"), replay)
             # ---- model call ----
+            tabs = "AllNaN" if allnan else ("Written" if cls == "ok" else "Partial")
+            if flags["options_raise"]:
+                tabs = prev_tabs          # nothing was touched: the tables of the previous call
+            prev_tabs = tabs
             if not in_model:
-                in_model_all = False
+                # the model has no such path (exception escaping from inside a solve function ...): close the
+                # sequence and start a new one from the state observed on the real net
                 ctx.count("pipeflow:outside_model(exception inside a solve function)")
-                break
+                if calls:
+                    seqs.append("(%s, %s)" % (start, clist(calls)))
+                    meta.append({"spec": sc["spec"], "steps": sc["steps"][:si + 1], "pick": sc["pick"], "log": list(log)})
+                calls = []
+                hf = bool(net.get("user_pf_options", {}).get("hyd_flag", False)) if "user_pf_options" in net else False
+                start = ("{| n_conv := %s; n_tables := %s; n_hyd_flag := %s; n_idata := %s; n_alpha := %s |}"
+                         % (cbool(conv), tabs, cbool(hf), cbool("_internal_data" in net),
+                            cq(D.alpha_q(net["_options"]["alpha"] if "_options" in net else 1.0))))
+                continue
             by = {"hydraulics": [], "heat": [], "bidirectional": []}
             for r in runs:
                 by.setdefault(r["stage"], []).append(r)
@@ -404,21 +419,16 @@ def run_scenarios(ctx, n_scen):
                       cbool(flags["conn_raise"]), cbool(flags["heat_unsupplied"]), cbool(flags["extract_raise"]),
                       cq(D.alpha_q(alpha0)), hy[0], clist(hy[1:]), ht[0], clist(ht[1:]), bi[-1]))
             out = "Returned" if cls == "ok" else "NotConverged" if cls == "PipeflowNotConverged" else "OtherError"
-            tabs = "AllNaN" if allnan else ("Written" if cls == "ok" else "Partial")
-            if flags["options_raise"]:
-                tabs = prev_tabs          # nothing was touched: the tables of the previous call
-            prev_tabs = tabs
             calls.append("{| pc_mode := %s; pc_env := %s; pc_obs_outcome := %s; pc_obs_conv := %s; pc_obs_tables := %s |}"
                          % (MODES.get(mode, "MBad"), env, out, cbool(conv), tabs))
         if calls:
-            seqs.append(clist(calls))
+            seqs.append("(%s, %s)" % (start, clist(calls)))
             meta.append({"spec": sc["spec"], "steps": sc["steps"], "pick": sc["pick"], "log": log})
-    fresh = "{| n_conv := false; n_tables := AllNaN; n_hyd_flag := false; n_idata := false; n_alpha := 1 |}"
     size = 40
     n_tot = n_mis = 0
     for s in range(0, len(seqs), size):
-        txt = HEADER + "Definition seqs : list (list pcall) := [\n%s\n].\nEval vm_compute in (summary (fun cs => pseq_ok cs %s) seqs).\n" \
-            % (";\n".join(seqs[s:s + size]), fresh)
+        txt = HEADER + "Definition seqs : list (netst * list pcall) := [\n%s\n].\nEval vm_compute in (summary nseq_ok seqs).\n" \
+            % ";\n".join(seqs[s:s + size])
         trip, out = ctx.coq_counts(txt, "pipeflow_cases_%d" % (s // size))
         if not trip:
             ctx.broken("correspondence", "C05.pipeflow vs pandapipes.pipeflow (coqc failed)", out[-800:])
@@ -537,11 +547,11 @@ def run(ctx):
         wiring = fallback_wiring()
     import time
     t0 = time.time()
-    driver_correspondence(ctx, 500 if ctx.quick else 12000)
+    driver_correspondence(ctx, 800 if ctx.quick else 12000)
     t1 = time.time()
     run_stage_probes(ctx, wiring)
     t2 = time.time()
-    run_scenarios(ctx, 45 if ctx.quick else 900)
+    run_scenarios(ctx, 90 if ctx.quick else 900)
     ctx.extra["timing_s"] = {"driver": round(t1 - t0, 1), "stage_probes": round(t2 - t1, 1),
                              "pipeflow_sequences": round(time.time() - t2, 1)}
     print("timing: %r" % ctx.extra["timing_s"])
@@ -579,8 +589,9 @@ def replay(ctx, path):
     elif kind == "pipeflow_sequence":
         from harness import gen, drive
         net = gen.build(rp["spec"])
+        cache = {}
         for si, st in enumerate(rp["steps"]):
-            mode, kw, exc, frames, runs = call_step(net, st, rp["pick"] + si)
+            mode, kw, exc, frames, runs = call_step(net, st, rp["pick"] + si, cache)
             cls = "ok" if exc is None else type(exc).__name__
             allnan = drive.all_results_nan(net)
             print("step %d %s/%s -> %s converged=%s all_nan=%s" % (si, st["mut"], mode, cls, net.converged, allnan))
